@@ -227,7 +227,7 @@ func materialise(c *lazyCase) (*material, *harness.Fail) {
 		}
 		m.top = top
 		for _, b := range top {
-			if b.Type == "mdat" && (uint64(b.Start) != truth.MdatStart || uint64(b.payloadStart()) != truth.MdatPayloadStart || uint64(b.payloadSize()) != truth.MdatPayloadSize) {
+			if b.Type == "mdat" && b.payloadSize() > 0 && (uint64(b.Start) != truth.MdatStart || uint64(b.payloadStart()) != truth.MdatPayloadStart || uint64(b.payloadSize()) != truth.MdatPayloadSize) {
 				return nil, harness.Failf("harness|c08|writer-truth-differs-from-file", "mdat %+v, truth %d/%d/%d", b, truth.MdatStart, truth.MdatPayloadStart, truth.MdatPayloadSize)
 			}
 		}
